@@ -7,6 +7,7 @@ package main
 
 import (
 	"bytes"
+	"context"
 	"encoding/json"
 	"fmt"
 	"go/types"
@@ -219,6 +220,12 @@ func tryReplay(w *World, prop, key string, r *Result) *ReplayOutcome {
 		return out
 	}
 	b := &replayBuilder{g: g, pkg: g.fn.Pkg.Pkg, imports: map[string]string{"testing": "testing", "fmt": "fmt"}, objs: map[string]string{}, strs: map[string]string{}}
+	// strings / slices longer than what the model reports element-wise: ask the solver for a counterexample with
+	// short inputs (same query plus length bounds); if there is none the original model is kept
+	if small := smallInputModel(g, r); small != nil {
+		r.Model = small
+		out.Detail = "counterexample re-solved with short inputs; "
+	}
 	// parameters
 	var args []string
 	recv := ""
@@ -228,7 +235,10 @@ func tryReplay(w *World, prop, key string, r *Result) *ReplayOutcome {
 			out.Detail = "model has no value for parameter " + p.Name()
 			return out
 		}
-		gv, ok := b.goValue(mv, p.Type())
+		gv, ok := b.seqFromModel(p.Name(), p.Type(), r.Model)
+		if !ok {
+			gv, ok = b.goValue(mv, p.Type())
+		}
 		if !ok {
 			out.Detail = fmt.Sprintf("parameter %s of type %s cannot be rebuilt from the model value %s", p.Name(), p.Type(), truncate(mv, 80))
 			return out
@@ -537,4 +547,120 @@ func removeNewUntracked(before map[string]bool) {
 func runSelftest(prop string) int {
 	fmt.Println("selftest: see /verif/tools/selftest.sh")
 	return 2
+}
+
+
+// seqFromModel rebuilds a string / slice-of-basic parameter from the element-wise model values registered by
+// addInputModelVars (at most replayElems elements).
+func (b *replayBuilder) seqFromModel(name string, t types.Type, model map[string]string) (string, bool) {
+	ls, ok := model[name+"#len"]
+	if !ok {
+		return "", false
+	}
+	lv, ok := parseSX(ls).intVal()
+	if !ok {
+		return "", false
+	}
+	var n int
+	if _, err := fmt.Sscanf(lv, "%d", &n); err != nil || n < 0 || n > replayElems {
+		return "", false
+	}
+	elem := func(k int, et types.Type) (string, bool) {
+		mv, ok := model[fmt.Sprintf("%s#%d", name, k)]
+		if !ok {
+			return "", false
+		}
+		x := parseSX(mv)
+		if eb, isB := et.Underlying().(*types.Basic); isB && eb.Info()&types.IsBoolean != 0 {
+			return x.atom, x.atom == "true" || x.atom == "false"
+		}
+		if eb, isB := et.Underlying().(*types.Basic); isB && eb.Info()&types.IsFloat != 0 {
+			return "", false
+		}
+		return x.intVal()
+	}
+	switch u := t.Underlying().(type) {
+	case *types.Basic:
+		if u.Info()&types.IsString == 0 {
+			return "", false
+		}
+		var bs []string
+		for k := 0; k < n; k++ {
+			v, ok := elem(k, types.Typ[types.Uint8])
+			if !ok {
+				return "", false
+			}
+			bs = append(bs, v)
+		}
+		return fmt.Sprintf("%s([]byte{%s})", b.typeStr(t), strings.Join(bs, ", ")), true
+	case *types.Slice:
+		if n == 0 {
+			return "", false // nil vs empty is decided by the slice header value
+		}
+		var es []string
+		for k := 0; k < n; k++ {
+			v, ok := elem(k, u.Elem())
+			if !ok {
+				return "", false
+			}
+			es = append(es, v)
+		}
+		return fmt.Sprintf("%s{%s}", b.typeStr(t), strings.Join(es, ", ")), true
+	}
+	return "", false
+}
+
+// smallInputModel re-solves the refuted query with every string / basic-slice parameter bounded to replayElems
+// elements; nil if no parameter is too long or no such counterexample is found quickly.
+func smallInputModel(g *Gen, r *Result) map[string]string {
+	var extra []string
+	tooLong := false
+	for _, p := range g.fn.Params {
+		v, ok := g.params[p.Name()]
+		if !ok || v.S == nil {
+			continue
+		}
+		var lenTerm string
+		switch v.S.K {
+		case KStr:
+			lenTerm = fmt.Sprintf("(gstr.len %s)", v.T)
+		case KSlice:
+			lenTerm = fmt.Sprintf("(sl.len %s)", v.T)
+		default:
+			continue
+		}
+		if _, has := r.Model[p.Name()+"#len"]; !has {
+			continue
+		}
+		extra = append(extra, fmt.Sprintf("(assert %s)", g.idxLe(lenTerm, g.idxLit(replayElems))))
+		if lv, ok := parseSX(r.Model[p.Name()+"#len"]).intVal(); ok {
+			var n int
+			if _, err := fmt.Sscanf(lv, "%d", &n); err != nil || n > replayElems {
+				tooLong = true
+			}
+		}
+	}
+	if !tooLong || len(extra) == 0 || r.Query == "" {
+		return nil
+	}
+	i := strings.LastIndex(r.Query, "(check-sat)")
+	if i < 0 {
+		return nil
+	}
+	text := r.Query[:i] + strings.Join(extra, "\n") + "\n" + r.Query[i:]
+	dir, err := os.MkdirTemp("", "gvc-small-")
+	if err != nil {
+		return nil
+	}
+	defer os.RemoveAll(dir)
+	for _, s := range solvers[:2] {
+		st, out, _ := runSolver(context.Background(), s, text, dir, "small", 10)
+		if st == "sat" {
+			return parseModel(out, g.modelVars)
+		}
+		if st == "unsat" {
+			return nil
+		}
+	}
+	return nil
 }
